@@ -12,6 +12,13 @@ using namespace ace_time;
 
 Print VerifSerial;
 extern "C" unsigned long millis() { return 0; }
+// hook H1 (guarded, in /repo): attempts to add a transition beyond BasicZoneProcessor's cache capacity
+long ace_time_verif_basic_dropped = 0;
+#ifdef ACE_TIME_VERIF_HAS_H1
+static const int kHasH1 = 1;
+#else
+static const int kHasH1 = 0;
+#endif
 
 struct Obs {
   int utoff;       // seconds; 999999 = error
@@ -83,6 +90,7 @@ static int scan(const ZI* const* registry, int n, int i0, int i1, long grid, lon
     ZP processor;
     TimeZone tz = TimeZone::forZoneInfo(registry[i], &processor);
     nprobe = 0;
+    ace_time_verif_basic_dropped = 0;
     std::vector<Piece> ps;
     std::vector<std::string> ff;
     long nfield = 0;
@@ -125,7 +133,10 @@ static int scan(const ZI* const* registry, int n, int i0, int i1, long grid, lon
     out += ",\"fieldfail\":[";
     for (size_t j = 0; j < ff.size(); j++) { if (j) out += ","; out += ff[j]; }
     char buf[96];
-    snprintf(buf, sizeof buf, "],\"nprobe\":%ld,\"nfield\":%ld}", nprobe, nfield);
+    // every year 1999..2050 initialised at least once (the sweep covers 2000..2049)
+    observe(tz, (acetime_t) -86400L * 180);
+    observe(tz, (acetime_t) (18263L + 180) * 86400);
+    snprintf(buf, sizeof buf, "],\"nprobe\":%ld,\"nfield\":%ld,\"dropped\":%ld,\"hookH1\":%d}", nprobe, nfield, ace_time_verif_basic_dropped, kHasH1);
     out += buf;
     puts(out.c_str());
     fflush(stdout);
@@ -149,6 +160,88 @@ static int probe(const ZI* const* registry, int n, int zi, int argc, char** argv
   return 0;
 }
 
+
+// ---- wall-clock resolution (C07): ZonedDateTime::forComponents over windows of wall time ----
+struct WObs {
+  long shift; int off; int err;
+  bool operator==(const WObs& o) const { return shift == o.shift && off == o.off && err == o.err; }
+  bool operator!=(const WObs& o) const { return !(*this == o); }
+};
+static long nwall = 0;
+static WObs resolve(const TimeZone& tz, long w, std::string* normwhy) {
+  nwall++;
+  Civil c = civil_from_days(floordiv(w, 86400));
+  long sod = floormod(w, 86400);
+  ZonedDateTime z = ZonedDateTime::forComponents((int16_t) c.y, (uint8_t) c.m, (uint8_t) c.d,
+      (uint8_t) (sod / 3600), (uint8_t) ((sod % 3600) / 60), (uint8_t) (sod % 60), tz);
+  WObs o;
+  if (z.isError()) { o.shift = 0; o.off = 0; o.err = 1; return o; }
+  long e = (long) z.toEpochSeconds();
+  o.shift = e - w; o.off = z.timeOffset().toMinutes() * 60; o.err = 0;
+  // normalised: rebuilding from its own epoch seconds gives the same fields and offset
+  ZonedDateTime r = ZonedDateTime::forEpochSeconds((acetime_t) e, tz);
+  bool same = !r.isError() && r.year() == z.year() && r.month() == z.month() && r.day() == z.day()
+      && r.hour() == z.hour() && r.minute() == z.minute() && r.second() == z.second()
+      && r.timeOffset().toMinutes() == z.timeOffset().toMinutes();
+  // and the fields are those of the instant shifted by the reported offset
+  long lt = e + o.off;
+  Civil rc = civil_from_days(floordiv(lt, 86400)); long rs = floormod(lt, 86400);
+  bool fields = z.year() == rc.y && z.month() == rc.m && z.day() == rc.d && z.hour() == rs / 3600
+      && z.minute() == (rs % 3600) / 60 && z.second() == rs % 60;
+  if ((!same || !fields) && normwhy && normwhy->empty()) {
+    char buf[200];
+    snprintf(buf, sizeof buf, "{\"w\":%ld,\"epoch\":%ld,\"off\":%d,\"same\":%d,\"fields\":%d}", w, e, o.off, (int) same, (int) fields);
+    *normwhy = buf;
+  }
+  return o;
+}
+
+template <typename ZI, typename ZP, typename ZONE>
+static int wall(const ZI* const* registry, int n) {
+  char line[256];
+  int lastzi = -1;
+  ZP processor;
+  TimeZone tz;
+  while (fgets(line, sizeof line, stdin)) {
+    int zi; long w0, w1, grid;
+    if (sscanf(line, "%d %ld %ld %ld", &zi, &w0, &w1, &grid) != 4) continue;
+    if (zi < 0 || zi >= n) continue;
+    if (zi != lastzi) { tz = TimeZone::forZoneInfo(registry[zi], &processor); lastzi = zi; }
+    std::string normwhy;
+    std::string out;
+    char buf[160];
+    snprintf(buf, sizeof buf, "{\"zi\":%d,\"w0\":[%ld,%ld],\"w1\":[%ld,%ld],\"pieces\":[", zi, floordiv(w0, 86400), floormod(w0, 86400), floordiv(w1, 86400), floormod(w1, 86400));
+    out = buf;
+    WObs cur = resolve(tz, w0, &normwhy);
+    snprintf(buf, sizeof buf, "[%ld,%ld,%ld,%d,%d]", floordiv(w0, 86400), floormod(w0, 86400), cur.shift, cur.off, cur.err);
+    out += buf;
+    long lo = w0;
+    for (long w = w0 + grid; ; w += grid) {
+      bool last = false;
+      if (w >= w1) { w = w1 - 1; last = true; }
+      if (w <= lo) break;
+      WObs o = resolve(tz, w, &normwhy);
+      while (o != cur) {
+        long a = lo, b = w;
+        while (b - a > 1) { long m = a + (b - a) / 2; if (resolve(tz, m, &normwhy) != cur) b = m; else a = m; }
+        WObs nb = resolve(tz, b, &normwhy);
+        snprintf(buf, sizeof buf, ",[%ld,%ld,%ld,%d,%d]", floordiv(b, 86400), floormod(b, 86400), nb.shift, nb.off, nb.err);
+        out += buf;
+        cur = nb; lo = b;
+      }
+      lo = w;
+      if (last) break;
+    }
+    out += "],\"normfail\":";
+    out += normwhy.empty() ? "null" : normwhy;
+    snprintf(buf, sizeof buf, ",\"n\":%ld}", nwall);
+    out += buf;
+    nwall = 0;
+    puts(out.c_str());
+  }
+  return 0;
+}
+
 int main(int argc, char** argv) {
   if (argc < 3) { fprintf(stderr, "usage\n"); return 2; }
   std::string cmd = argv[1];
@@ -164,6 +257,10 @@ int main(int argc, char** argv) {
     (void) argv[9];
     if (basic) return scan<basic::ZoneInfo, BasicZoneProcessor, BasicZone>(zonedb::kZoneRegistry, zonedb::kZoneRegistrySize, i0, i1, grid, t0, t1, fs);
     return scan<extended::ZoneInfo, ExtendedZoneProcessor, ExtendedZone>(zonedbx::kZoneRegistry, zonedbx::kZoneRegistrySize, i0, i1, grid, t0, t1, fs);
+  }
+  if (cmd == "wall") {
+    if (basic) return wall<basic::ZoneInfo, BasicZoneProcessor, BasicZone>(zonedb::kZoneRegistry, zonedb::kZoneRegistrySize);
+    return wall<extended::ZoneInfo, ExtendedZoneProcessor, ExtendedZone>(zonedbx::kZoneRegistry, zonedbx::kZoneRegistrySize);
   }
   if (cmd == "probe" && argc >= 4) {
     int zi = atoi(argv[3]);
